@@ -105,7 +105,7 @@ pub proof fn axiom_a3_procfs_witness(root: int, cur: int, rp: Seq<u8>, cp: Seq<u
         observed(cur, cp, 2),                                   // [C02.A3.handle_path_read]
         observed(root, rp2, 3),                                 // [C02.A3.root_path_reread_after]
         path_eq(rp, rp2),                                       // [C02.A3.root_did_not_move]
-        path_eq(cp, join_spec(rp, dot_then(expected))),         // [C01+C02.A3.handle_path_is_root_plus_expected]
+        path_eq(cp, join_spec(rp, dot_then(expected))),         // [C01+C02+C03.A3.handle_path_is_root_plus_expected]
     ensures lineage(cur), witnessed(cur)
 { admit(); }
 //@item src/utils/path.rs :: struct RawComponents | sub.derive_debug
